@@ -369,8 +369,11 @@ def task_adjoint():
         if len(va) != 1 or list(va[0]['args']) != [st['og'], st['ng']] or va[0]['kwargs']:
             return False
         ms = r.mutations()
-        if len(ms) != 3 or any(m['store'] is not st['oval'].store or m.get('how') != 'Add=' for m in ms):
+        if any(m['store'] is not st['oval'].store for m in ms):
             return False
+        if len(ms) != 3 or any(m.get('how') != 'Add=' or not isinstance(m['arr'].view, tuple) for m in ms):
+            from .cxutil import UNRECOGNISED
+            return UNRECOGNISED('oval is not updated by three row-wise += statements')
         keys = [m['arr'].view[1] if isinstance(m['arr'].view, tuple) else None for m in ms]
         return [k[0] if isinstance(k, tuple) else None for k in keys] == [0, 1, 2] and all(k[1:] == (Ellipsis,) for k in keys)
     clause(col, 'one_operator_from_this_calls_grids_applied_to_rows_0_1_2_and_added_to_oval_only', res, structure)
